@@ -327,9 +327,14 @@ func (c *xsyncMapOf[K, V]) GetAndDelete(k K) (V, bool) {
 		var v V
 		return v, false
 	}
+	expired := i.expired()
 	ec := c.EvictedCallback()
 	if ec != nil {
 		ec(k, i.v)
+	}
+	if expired {
+		var v V
+		return v, false
 	}
 	return i.v, true
 }
